@@ -13,6 +13,8 @@ import Helm.Model.ImportValues
 import Helm.Lemmas.Strvals
 import Helm.Lemmas.Index
 import Helm.Model.ArchivePath
+import Helm.Lemmas.Recursion
+import Helm.Gen.Tables
 
 namespace Helm.Props.C20
 
@@ -154,5 +156,51 @@ theorem archive_name_total (n : List Char) :
   cases h : Helm.ArchivePath.normName n with
   | ok r => exact Or.inl ⟨r, rfl⟩
   | error e => exact Or.inr ⟨e, rfl⟩
+
+/-! ## template recursion: include and tpl -/
+
+/-- Whatever the templates and values call (any graph of includes and tpl texts over `K`
+counter names, cycles included), a render needs at most `K * (max + 1)` nested frames: with
+that much stack it returns a result or an error, never the fatal stack overflow.  (`K` is the
+number of template names plus one for `tpl`; `max` is `recursionMaxNums`.) -/
+theorem render_never_exhausts_stack (p : Helm.Recursion.Prog) (hs : p.shared = true) (K : Nat)
+    (hK : ∀ n, p.ctr n < K) (fuel root : Nat) (hf : K * (p.max + 1) < fuel) :
+    Helm.Recursion.render p fuel root ≠ .fatal := by
+  apply Helm.Recursion.call_not_fatal p hs K hK
+  rw [Helm.Recursion.slack_zero]; exact hf
+
+/-- The guard does not refuse harmless charts: when the calls are well-founded (a rank
+decreases along every call) and the root's rank is within the limit, the render succeeds. -/
+theorem shallow_render_succeeds (p : Helm.Recursion.Prog) (rank : Nat → Nat)
+    (hr : ∀ n, ∀ m ∈ p.body n, rank m < rank n) (fuel root : Nat) (h1 : rank root ≤ p.max)
+    (h2 : rank root < fuel) : ∃ t, Helm.Recursion.render p fuel root = .ok t :=
+  Helm.Recursion.call_ok_of_rank p rank hr fuel _ root (fun _ => by simpa using h1) h2
+
+/-- A cycle is an error, not a hang of the guard: a template that includes itself is refused
+by its own counter once the limit is reached (here with the regenerated limit). -/
+theorem self_include_is_error :
+    Helm.Recursion.render ⟨fun _ => [0], fun n => n, 3, true, fun _ => false⟩ 100 0 = .err 0 := by
+  decide
+
+/-- What the limit is for: when a tpl clone starts from fresh counters (the shape of one of the
+seeded changes), a value that calls tpl on itself exhausts every stack. -/
+theorem unshared_counters_exhaust_every_stack (max : Nat) (fuel : Nat) :
+    Helm.Recursion.render ⟨fun _ => [0], fun _ => 0, max, false, fun _ => true⟩ fuel 0 = .fatal := by
+  have h : ∀ (fuel : Nat) (cnt : Nat → Nat), cnt 0 ≤ max →
+      Helm.Recursion.call ⟨fun _ => [0], fun _ => 0, max, false, fun _ => true⟩ fuel cnt 0 = .fatal := by
+    intro fuel
+    induction fuel with
+    | zero => intro cnt _; rfl
+    | succ f ih =>
+      intro cnt hc
+      have hg : ¬ cnt 0 > max := by omega
+      simp only [Helm.Recursion.call, hg, if_false, Bool.not_false, Bool.and_self, if_true, List.foldl_cons,
+        List.foldl_nil, Helm.Recursion.seqStep, ih (fun _ => 0) (Nat.zero_le _)]
+  exact h fuel _ (Nat.zero_le _)
+
+/-- The limit and the sharing of the counters, as read from the source on this run. -/
+theorem recursion_guard_facts :
+    Helm.Gen.recursionMaxNums = 1000 ∧ Helm.Gen.tplSharesCounters = true ∧ Helm.Gen.tplCountsNesting = true := by
+  decide
 
 end Helm.Props.C20
